@@ -23,8 +23,8 @@
    * the shutdown waits of bufferer.Destroy / collectLeftovers do not hit their own time-outs (EFeederEnd,
      EClientDone, EStopped are taken only when their loops have drained: C18's subject). *)
 From Coq Require Import List NArith Bool.
-From SV Require Import Model.Common Model.System Model.SystemAccept Model.SystemConnEnd
-  Proofs.SystemLists Proofs.SystemProofs Proofs.SystemAlo Proofs.SystemAcceptProofs Proofs.SystemConnEndProofs.
+From SV Require Import Model.Common Model.System Model.SystemAccept Model.SystemConnEnd Model.SystemQuota
+  Proofs.SystemLists Proofs.SystemProofs Proofs.SystemAlo Proofs.SystemAcceptProofs Proofs.SystemConnEndProofs Proofs.SystemQuotaProofs.
 Import ListNotations.
 
 (* Conservation, in every reachable state: every record read is in at least one location; nothing is anywhere
@@ -204,3 +204,66 @@ Theorem C01_stop_case_prediction_alo :
     In t (toks_of_chunks (acked s)) \/ In t (toks_of_chunks (files s)) \/ In t (toks_of_chunks (dropped s)).
 Proof. exact stop_scenario_alo. Qed.
 Print Assumptions C01_stop_case_prediction_alo.
+
+(* ---------- the only permitted discards are the documented overflows ----------
+   Model/SystemQuota.v: [qstep sz lim qmax] is the agent whose spill / drop outcomes are guarded as in
+   chunkOperator.UnloadChunk (bytes of the chunk files of the pipeline's queue directory + len(chunk) > maxBufSize ->
+   refuse) and bufferer.Accept (queue full -> drop), evaluated on the CURRENT contents of the directory ([files]) and
+   of the queue; chunk-file read errors excluded.  [sz] (bytes of a chunk), [lim] (maxBufSize) and [qmax]
+   (BufferMaxNumChunksInQueue) are arbitrary. *)
+Definition C01_overflow (sz : chunk -> nat) (lim qmax : nat) (s : state) (c : chunk) : Prop :=
+  dir_full sz lim s c = true \/ queue_full qmax s (c_pipe c) = true.
+
+(* One step adds at most one chunk to the dropped history, and only if the overflow condition holds for it in the
+   state in which the step is taken. *)
+Theorem C01_drop_step_only_when_full :
+  forall sz lim qmax s e s', qstep sz lim qmax s e = Some s' ->
+    dropped s' = dropped s \/ exists c, dropped s' = dropped s ++ [c] /\ C01_overflow sz lim qmax s c.
+Proof. exact qstep_drop_only_when_full. Qed.
+Print Assumptions C01_drop_step_only_when_full.
+
+(* All runs, all histories of spilling, acknowledging, stopping and restarting: every discarded chunk was discarded
+   in a state (reached by a prefix of the run) whose queue directory — with the files it held AT THAT MOMENT, whatever
+   was spilled, recovered and removed before — could not take it, or whose queue was full. *)
+Theorem C01_drop_only_when_full :
+  forall sz lim qmax es s, qsteps sz lim qmax init es = Some s ->
+  forall c, In c (dropped s) ->
+    exists es1 e es2 s1, es = es1 ++ e :: es2 /\ qsteps sz lim qmax init es1 = Some s1 /\ C01_overflow sz lim qmax s1 c.
+Proof.
+  intros sz lim qmax es s H c Hc.
+  destruct (qsteps_drop_only_when_full sz lim qmax es init s H c Hc) as [[]|X]. exact X.
+Qed.
+Print Assumptions C01_drop_only_when_full.
+
+(* The guarded agent is a restriction of Model/System.v, so conservation and at-least-once hold for it, and the third
+   alternative of at-least-once ("in a counted-dropped chunk") is a documented overflow. *)
+Theorem C01_quota_runs_are_runs :
+  forall sz lim qmax es s s', qsteps sz lim qmax s es = Some s' -> steps s es = Some s'.
+Proof. exact qsteps_steps. Qed.
+Print Assumptions C01_quota_runs_are_runs.
+
+Theorem C01_at_least_once_or_overflow :
+  forall sz lim qmax es s, qsteps sz lim qmax init es = Some s -> no_timeout es = true -> phase s = Stopped ->
+  forall t, In t (ingested s) -> t_keep t = true ->
+    In t (toks_of_chunks (acked s)) \/ In t (toks_of_chunks (files s)) \/
+    (exists c, In c (dropped s) /\ In t (c_toks c) /\
+       exists es1 e es2 s1, es = es1 ++ e :: es2 /\ qsteps sz lim qmax init es1 = Some s1 /\ C01_overflow sz lim qmax s1 c).
+Proof. exact quota_at_least_once. Qed.
+Print Assumptions C01_at_least_once_or_overflow.
+
+(* The agent whose space check reads a counter that only grows on its side (spills and recovered files are added,
+   the removals on ACK happen on another copy — seeded change C01/7): after spill, delivery, ACK and removal the
+   directory and the queue are EMPTY, yet the next chunk is discarded; the overflow condition is false for it; the
+   guarded agent cannot take that step and spills the chunk instead. *)
+Theorem C01_drop_only_when_full_cumulative_counter_variant_refuted :
+  exists s1 u1 s2 u2 c,
+    csteps qsz 1 64 (init, fun _ => 0) cumulative_history = Some (s1, u1) /\
+    qsteps qsz 1 64 init cumulative_history = Some s1 /\
+    files s1 = [] /\ queue s1 = [] /\
+    cstep qsz 1 64 (s1, u1) cumulative_drop = Some (s2, u2) /\
+    dropped s2 = [c] /\ c_toks c = [wt2] /\
+    dir_full qsz 1 s1 c = false /\ queue_full 64 s1 (c_pipe c) = false /\
+    qstep qsz 1 64 s1 cumulative_drop = None /\
+    exists s3, qstep qsz 1 64 s1 (EChunkClose 1 2 ADisk) = Some s3 /\ In wt2 (toks_of_chunks (files s3)).
+Proof. exact cumulative_counter_witness. Qed.
+Print Assumptions C01_drop_only_when_full_cumulative_counter_variant_refuted.
